@@ -104,6 +104,9 @@ CALLEES = {
         ret=LIST(STR), raises=False),
 }
 
+# modules that can be bound to a variable (`parser = v2version if … else v1version`; `if …: parser = v2version else: …`)
+MODULES = ("v1version", "v2version")
+
 # functions usable as `key=`: dotted name -> (lean function, result type)
 KEY_FUNCS = {"version.parse_version": ("parseVersion", VERSION)}
 
@@ -236,6 +239,7 @@ class CliTranslator(TF.FuncTranslator):
         self.effect = spec.get("effect", False)
         self.handlers = []          # [(Exc predicate, thunk rendering handler-then-rest)]
         self.loop_ret = False       # inside a `findSome?` loop body: `return e` is `some e`
+        self.in_loop = 0            # inside the step function of a `pyForM` loop: exceptions only propagate
         self.used_callees = []      # translated callees (their Gen files are imported)
         self.raises = False
 
@@ -321,7 +325,7 @@ class CliTranslator(TF.FuncTranslator):
     def on_error(self, propagate_only=False):
         """Lean term for `| .error ex => …`: the innermost matching handler, else propagate"""
         out = "(.error ex)"
-        if propagate_only:
+        if propagate_only or self.in_loop:
             return out
         hs = self.handlers
         for i, (pred, hk) in enumerate(hs):
@@ -445,8 +449,10 @@ class CliTranslator(TF.FuncTranslator):
                 self.bad(node, "`.value` on a value of type %r" % (t,))
         if isinstance(node, ast.Name) and node.id in env and env[node.id].type[0] == "modsel":
             self.bad(node, "a module-valued variable can only be used as `var.function(...)`")
+        if isinstance(node, ast.Name) and node.id not in env and node.id in MODULES:
+            return "<module>", MODSEL("true", node.id, node.id)      # a module as a value (only `var.function(...)` uses it)
         if isinstance(node, ast.IfExp) and all(
-                isinstance(b, ast.Name) and b.id in ("v1version", "v2version") for b in (node.body, node.orelse)):
+                isinstance(b, ast.Name) and b.id in MODULES and b.id not in env for b in (node.body, node.orelse)):
             c = self.truthy(node.test, env)
             return "<module>", MODSEL(c, node.body.id, node.orelse.id)
         if isinstance(node, (ast.ListComp, ast.GeneratorExp)):
@@ -822,6 +828,10 @@ class CliTranslator(TF.FuncTranslator):
             if effect_of_callee(nm) or (isinstance(call.func, ast.Attribute) and isinstance(call.func.value, ast.Name)
                                         and call.func.value.id in env and env[call.func.value.id].type[0] == "modsel"):
                 return self.with_hoists(lambda: self.expr(call, env), lambda _: kr(env))
+        if isinstance(st, ast.If):
+            sel = self.module_select(st, env)
+            if sel is not None:
+                return self.block([sel] + list(rest), env, k)
         if isinstance(st, ast.Try):
             return self.try_stmt(st, rest, env, k)
         if isinstance(st, ast.With):
@@ -830,6 +840,24 @@ class CliTranslator(TF.FuncTranslator):
             # the annotation is not used for typing (the value's static type is)
             return self.assign(st.target.id, lambda: self.expr(st.value, env), env, kr, st)
         return TF.FuncTranslator.block(self, stmts, env, k)
+
+    def module_select(self, st, env):
+        """`if c: m = modA` / `else: m = modB`  is the assignment  `m = modA if c else modB`"""
+        a = [x for x in st.body if not self.is_dropped(x)]
+        b = [x for x in st.orelse if not self.is_dropped(x)]
+        if len(a) != 1 or len(b) != 1:
+            return None
+        for x in (a[0], b[0]):
+            if not (isinstance(x, ast.Assign) and len(x.targets) == 1 and isinstance(x.targets[0], ast.Name)
+                    and isinstance(x.value, ast.Name) and x.value.id in MODULES and x.value.id not in env):
+                return None
+        if a[0].targets[0].id != b[0].targets[0].id:
+            return None
+        new = ast.Assign(targets=[ast.Name(id=a[0].targets[0].id, ctx=ast.Store())],
+                         value=ast.IfExp(test=st.test, body=a[0].value, orelse=b[0].value))
+        ast.copy_location(new, st)
+        ast.fix_missing_locations(new)
+        return new
 
     def assign(self, name, compute, env, kr, at):
         def cont(vt):
@@ -932,7 +960,134 @@ class CliTranslator(TF.FuncTranslator):
                       and isinstance(last.body[0].value.value, bool))
         if has_ret and not bool_idiom:
             return self.find_loop(st, body, rest, env, k)
+        has_break = any(isinstance(n, ast.Break) for s_ in body for n in ast.walk(s_))
+        if has_break and not has_ret:
+            return self.break_loop(st, body, rest, env, k)
+        if self.effect and not has_ret and any(self.has_effect(s_) for s_ in body):
+            return self.monadic_for(st, body, rest, env, k)
         return TF.FuncTranslator.for_stmt(self, st, rest, env, k)
+
+    def break_loop(self, st, body, rest, env, k):
+        """for x in xs: if c: ASSIGNMENTS; break      (no else, nothing else in the body)
+        -> let (vars) := match xs.find? (fun x => c) with | none => (vars) | some x => ASSIGNMENTS; (vars)"""
+        if st.orelse or not isinstance(st.target, ast.Name):
+            self.bad(st, "only `for name in xs:` without else")
+        ok = (len(body) == 1 and isinstance(body[0], ast.If) and not body[0].orelse and body[0].body
+              and isinstance(body[0].body[-1], ast.Break))
+        if not ok:
+            self.bad(st, "`break` is only supported as `for x in xs: if c: assignments; break`")
+        inner = [s_ for s_ in body[0].body[:-1] if not self.is_dropped(s_)]
+        for s_ in inner:
+            if not isinstance(s_, (ast.Assign, ast.AnnAssign, ast.AugAssign)) or self.has_effect(s_):
+                self.bad(st, "before `break` only assignments without effects")
+        if self.has_effect(body[0].test):
+            self.bad(st, "the test of a `break` loop can raise")
+        xs, et = self.iterable(st.iter, env)
+        x = lean_ident(st.target.id)
+        env_in = dict(env)
+        env_in[st.target.id] = Var(x, et)
+        saved_h, self.hoists = self.hoists, None
+        try:
+            c = self.cond(body[0].test, env_in, lambda e: "true", lambda e: "false", as_bool=True)
+            saved = self.counter
+            probes = []
+            self.block(inner, env_in, lambda e: (probes.append(e), "?")[1])
+            self.counter = saved
+            names = self.changed_vars(env_in, probes)
+            for n in names:
+                if n not in env:
+                    self.bad(st, "`%s` is assigned before `break` but not defined before the loop" % n)
+            if not names:
+                return self.block(rest, env, k)
+            types = {}
+            for n in names:
+                t = self.unify(env[n].type, probes[0][n].type)
+                if t is None:
+                    self.bad(st, "cannot type `%s` after the loop" % n)
+                types[n] = INT if t == LIT else t
+
+            def tup(e):
+                vals = [self.coerce(e[n].lean, e[n].type, types[n], st) for n in names]
+                return vals[0] if len(vals) == 1 else "(" + ", ".join(vals) + ")"
+            found = self.block(inner, env_in, tup)
+            notfound = tup(env)
+        finally:
+            self.hoists = saved_h
+        lean = "(match (List.find? (fun %s => %s) %s) with\n  | none => %s\n  | some %s => %s)" % (
+            x, c, xs, _arm(notfound), x, _arm(found))
+        env2 = dict(env)
+        for n in names:
+            env2[n] = Var(lean_ident(n), types[n])
+        if len(names) == 1:
+            return "let %s := %s;\n%s" % (lean_ident(names[0]), lean, self.block(rest, env2, k))
+        pat = "(" + ", ".join(lean_ident(n) for n in names) + ")"
+        return "(match %s with\n  | %s => %s)" % (lean, pat, _arm(self.block(rest, env2, k)))
+
+    def monadic_for(self, st, body, rest, env, k):
+        """an accumulation loop whose body can raise: `pyForM step init xs` (Model/CliPrims.lean), the first
+        exception ends the loop and is handled / propagated where the loop stands"""
+        if st.orelse or not isinstance(st.target, ast.Name):
+            self.bad(st, "only `for name in xs:` without else")
+        for s_ in body:
+            for n in ast.walk(s_):
+                if isinstance(n, (ast.Break, ast.Return, ast.For, ast.While, ast.Try)):
+                    self.bad(st, "break/return/nested loops/try in a loop whose body can raise")
+        if self.has_effect(st.iter):
+            self.bad(st, "an iterable that can raise")
+        xs, et = self.iterable(st.iter, env)
+        x = lean_ident(st.target.id)
+        env_in = dict(env)
+        env_in[st.target.id] = Var(x, et)
+
+        def run_body(e, kk):
+            self.loop_k.append(kk)
+            self.in_loop += 1
+            try:
+                return self.block(body, e, kk)
+            finally:
+                self.loop_k.pop()
+                self.in_loop -= 1
+
+        def probe(e):
+            saved = self.counter
+            probes = []
+            run_body(e, lambda e_: (probes.append(e_), "?")[1])
+            self.counter = saved
+            return probes
+        probes = probe(env_in)
+        names = [n for n in self.changed_vars(env_in, probes) if n in env]
+        if not names:
+            self.bad(st, "a loop whose body can raise but assigns nothing")
+        types = {}
+        for n in names:
+            t = env[n].type
+            for pe in probes:
+                t = self.unify(t, pe[n].type) if t is not None else None
+            if t is None or (t[0] == "list" and t[1] is None):
+                self.bad(st, "cannot type the loop-carried variable `%s`" % n)
+            types[n] = INT if t == LIT else t
+        env_body = dict(env_in)
+        for n in names:
+            env_body[n] = Var(lean_ident(n), types[n])
+        for pe in probe(env_body):
+            for n in names:
+                if self.unify(pe[n].type, types[n]) != types[n]:
+                    self.bad(st, "the type of `%s` changes from iteration to iteration" % n)
+
+        def tup(e):
+            vals = [self.coerce(e[n].lean, e[n].type, types[n], st) for n in names]
+            return vals[0] if len(vals) == 1 else "(" + ", ".join(vals) + ")"
+        step = run_body(env_body, lambda e: "(.ok %s)" % tup(e))
+        tys = [self.lean_type(types[n]) for n in names]
+        sty = tys[0] if len(tys) == 1 else " × ".join(tys)
+        pat = lean_ident(names[0]) if len(names) == 1 else "(" + ", ".join(lean_ident(n) for n in names) + ")"
+        fold = "(pyForM (fun (st : %s) (%s : %s) =>\n    (match st with\n      | %s =>\n%s))\n  %s\n  %s)" % (
+            sty, x, self.lean_type(et), pat, indent(step, 8), tup(env), xs)
+        env2 = dict(env)
+        for n in names:
+            env2[n] = Var(lean_ident(n), types[n])
+        return "(match %s with\n  | .error ex => %s\n  | .ok %s => %s)" % (
+            fold, _arm(self.on_error()), pat, _arm(self.block(rest, env2, k)))
 
     def find_loop(self, st, body, rest, env, k):
         """for x in xs: … return e …   ->   match xs.findSome? (fun x => …) with | some r => r | none => rest"""
@@ -942,8 +1097,8 @@ class CliTranslator(TF.FuncTranslator):
             self.bad(st, "a searching loop inside a function with effects / inside another searching loop")
         for s in body:
             for n in ast.walk(s):
-                if isinstance(n, (ast.Break, ast.Continue, ast.For, ast.While)):
-                    self.bad(st, "break/continue/nested loops in a searching loop")
+                if isinstance(n, (ast.Break, ast.For, ast.While)):
+                    self.bad(st, "break/nested loops in a searching loop")
         xs, et = self.iterable(st.iter, env)
         x = lean_ident(st.target.id)
         env_in = dict(env)
@@ -954,10 +1109,12 @@ class CliTranslator(TF.FuncTranslator):
                 if isinstance(n, ast.Name) and isinstance(n.ctx, ast.Store) and n.id in env:
                     self.bad(st, "the searching loop assigns `%s`, which is defined before the loop" % n.id)
         self.loop_ret = True
+        self.loop_k.append(lambda e: "none")      # `continue`: this element yields nothing, on to the next one
         try:
             inner = self.block(body, env_in, lambda e: "none")
         finally:
             self.loop_ret = False
+            self.loop_k.pop()
         after = self.block(rest, env, k)
         return "(match (List.findSome? (fun %s =>\n%s) %s) with\n  | some r => r\n  | none => %s)" % (
             x, indent(inner, 4), xs, _arm(after))
